@@ -100,16 +100,21 @@ Zeros(k) == [i \in 1..k |-> 0]
 \* a * B^k
 MShiftLimbs(a, k) == IF a = << >> THEN << >> ELSE Zeros(k) \o a
 
-\* schoolbook product: sum over the limbs of b of (a * b[j]) * B^(j-1)
-RECURSIVE MulAcc(_, _, _, _)
-MulAcc(a, b, j, acc) ==
-  IF j > Len(b) THEN acc
-  ELSE MulAcc(a, b, j + 1,
-              IF b[j] = 0 THEN acc ELSE MAdd(acc, MShiftLimbs(MMulSmall(a, b[j]), j - 1)))
+\* Schoolbook product by columns.  A limb product p = a[i]*b[j] < B^2 is split into
+\* p % B (column i+j-1) and p \div B (column i+j); a column therefore sums at most
+\* 2*Len limbs < B, which stays far below 2^31, and one carry pass normalises the result.
+RECURSIVE ColSum(_, _, _, _, _, _)
+ColSum(a, b, k, i, hi, acc) ==       \* sum over i..hi of low(a[i]*b[k+1-i]) + high(a[i]*b[k-i])
+  IF i > hi THEN acc
+  ELSE LET j  == k + 1 - i
+           lo == IF j >= 1 /\ j <= Len(b) THEN (a[i] * b[j]) % B ELSE 0
+           up == IF j >= 2 /\ j - 1 <= Len(b) THEN (a[i] * b[j - 1]) \div B ELSE 0
+       IN ColSum(a, b, k, i + 1, hi, acc + lo + up)
 
 MMul(a, b) ==
   IF a = << >> \/ b = << >> THEN << >>
-  ELSE IF Len(a) >= Len(b) THEN MulAcc(a, b, 1, << >>) ELSE MulAcc(b, a, 1, << >>)
+  ELSE LET n == Len(a) + Len(b)
+       IN Trim(Carry([k \in 1..n |-> ColSum(a, b, k, Max2(1, k - Len(b)), Min2(Len(a), k), 0)], 1, 0, << >>))
 
 \* 2^k as a magnitude
 MPow2(k) == [i \in 1..(k \div LB + 1) |-> IF i = k \div LB + 1 THEN P2(k % LB) ELSE 0]
@@ -146,10 +151,27 @@ MBitLen(a) == IF a = << >> THEN 0 ELSE LB * (Len(a) - 1) + NatBitLen(a[Len(a)])
 \* bit k (0-based) of a
 MBit(a, k) == (LimbAt(a, k \div LB + 1) \div P2(k % LB)) % 2
 
-\* limb-wise bit operations (CommunityModules Bitwise works on naturals; limbs are < 2^15)
+\* limb-wise bit operations, reference definitions (CommunityModules Bitwise works on
+\* naturals; limbs are < 2^15).  They are slow in TLC (one recursion step per bit).
 MAnd(a, b) == Trim([i \in 1..Min2(Len(a), Len(b)) |-> a[i] & b[i]])
 MOr(a, b)  == [i \in 1..Max2(Len(a), Len(b)) |-> LimbAt(a, i) | LimbAt(b, i)]
 MXor(a, b) == Trim([i \in 1..Max2(Len(a), Len(b)) |-> LimbAt(a, i) ^^ LimbAt(b, i)])
+
+\* The same operations through 32 x 32 tables on 5-bit digits (a limb is three digits).
+\* BitTables is derived from Bitwise; users evaluate it ONCE (into a state variable: TLC does
+\* not cache definitions that go through RECURSIVE operators) and pass it to the T-variants.
+\* BignumLaws checks that the T-variants agree with the reference definitions.
+BitTables == [and |-> [x \in 0..31 |-> [y \in 0..31 |-> x & y]],
+              or  |-> [x \in 0..31 |-> [y \in 0..31 |-> x | y]],
+              xor |-> [x \in 0..31 |-> [y \in 0..31 |-> x ^^ y]]]
+
+LimbOpT(tab, x, y) == tab[x % 32][y % 32]
+                      + 32 * tab[(x \div 32) % 32][(y \div 32) % 32]
+                      + 1024 * tab[x \div 1024][y \div 1024]
+
+MAndT(bt, a, b) == Trim([i \in 1..Min2(Len(a), Len(b)) |-> LimbOpT(bt.and, a[i], b[i])])
+MOrT(bt, a, b)  == [i \in 1..Max2(Len(a), Len(b)) |-> LimbOpT(bt.or, LimbAt(a, i), LimbAt(b, i))]
+MXorT(bt, a, b) == Trim([i \in 1..Max2(Len(a), Len(b)) |-> LimbOpT(bt.xor, LimbAt(a, i), LimbAt(b, i))])
 
 \* native natural -> magnitude (n < 2^31)
 RECURSIVE MFromNat(_)
@@ -292,6 +314,15 @@ ZBitOp(op, signed, w, x, y) ==
       u  == CASE op = "and" -> MAnd(ux, uy)
               [] op = "or"  -> MOr(ux, uy)
               [] op = "xor" -> MXor(ux, uy)
+  IN ZFromResidue(signed, w, u)
+
+\* the same with bit tables (bt = BitTables, evaluated once by the caller)
+ZBitOpT(bt, op, signed, w, x, y) ==
+  LET ux == ZResidue(x, w)
+      uy == ZResidue(y, w)
+      u  == CASE op = "and" -> MAndT(bt, ux, uy)
+              [] op = "or"  -> MOrT(bt, ux, uy)
+              [] op = "xor" -> MXorT(bt, ux, uy)
   IN ZFromResidue(signed, w, u)
 
 =============================================================================
